@@ -30,7 +30,8 @@ REQUIRED = ["tile_checked", "tile_nonconstant_pilot", "prefix_checked:nonnegmean
             "comparison_checked", "polling_checked", "interleave_checked", "contest_max_checked", "audit_max_checked",
             "estimate_strictly_between_1_and_N", "never_crossed_returns_N", "random_order_false_cases",
             "contract:Assertion.find_sample_size", "raire_estimator_checked", "comparison_checked_assorter_bound_not_1", "audit_oneaudit_checked", "audit_oneaudit_both_rates_positive", "contest_oneaudit_checked",
-            "polling_same_assertion_asked_again_after_tally_revised"]
+            "polling_same_assertion_asked_again_after_tally_revised", "tile_assertion_checked",
+            "tile_assertion_checked:pilot_total_alone_exceeds_N_t"]
 ASSUMPTIONS = ["int(1/r) is the documented spacing of assumed errors", "n_big >= 1 for interleave_values (a polling "
                "assertion has winner tally > loser tally >= 0)", "rates are always passed explicitly for comparison audits"]
 N_CASES = {"quick": 64000, "thorough": 512000}
@@ -62,7 +63,7 @@ def first_crossing(hist, alpha, N):
 def run_shard(spec, rec):
     rng = random.Random(f"c16-{spec['seed']}-{spec['shard']}")
     kinds = ("tile", "tile", "prefix", "comparison", "comparison", "polling", "interleave", "contest", "audit", "raire_estimator",
-             "audit_oneaudit", "contest_oneaudit")
+             "audit_oneaudit", "contest_oneaudit", "tile_assertion")
     for i in range(spec["n"]):
         kind = kinds[i % len(kinds)]
         case = {"kind": kind, "cseed": rng.randrange(10 ** 9), "Nmax": spec["Nmax"]}
@@ -90,7 +91,7 @@ def run_case(case, rec):
     return {"tile": run_tile, "prefix": run_prefix, "comparison": run_comparison, "polling": run_polling,
             "interleave": run_interleave, "contest": run_contest, "audit": run_audit,
             "raire_estimator": run_raire_estimator, "audit_oneaudit": run_audit_oneaudit,
-            "contest_oneaudit": run_contest_oneaudit}[kind](case, rng, rec)
+            "contest_oneaudit": run_contest_oneaudit, "tile_assertion": run_tile_assertion}[kind](case, rng, rec)
 
 
 def gen_pilot(rng, u, t, N):
@@ -136,6 +137,47 @@ def run_tile(case, rng, rec):
             "off_by_one" if abs(got - want) == 1 else "never_crossed_rule" if N in (got, want) else "first_crossing_differs"
         rec.violation("c16.tile", f"{lab}:{mech}", {"estimate": got, "first_crossing_on_tiled_population": want, "N": N,
                                                     "alpha": alpha, "pilot": x, "cfg": cfg})
+
+
+def run_tile_assertion(case, rng, rec):
+    """Assertion.find_sample_size with pilot data and reps=None (prefix flag on or off: documented as unused then): the
+    first crossing on the pilot tiled to the population size - also for pilots long enough that their own total passes
+    N t at their last value (a history of the pilot ALONE ends with the final-sample rule; the tiled population's does not)."""
+    N = rng.choice((10, 25, 37, 64, 100))
+    ok, mk = rec.guard("c16.call:make_assertions", make_contest, rng, "POLLING", N, 3)
+    if not ok:
+        return
+    con, tcfg = mk
+    asn = con.assertions["A v B"]
+    u = asn.assorter.upper_bound
+    asn.test.u = u
+    asn.margin = rng.choice((0.05, 0.2))     # (the function asserts a positive margin; with pilot data it is not used)
+    if rng.random() < 0.5:
+        L = rng.randint(N // 2 + 1, N - 1)      # long pilot, mostly large values: its total passes N/2 near its end
+        x = [rng.choice((u, u, u, u / 2, 0.0)) for _ in range(L)]
+        x[-1] = u
+    else:
+        x = gen_pilot(rng, u, 0.5, N)
+    prefix = rng.random() < 0.6
+    with np.errstate(all="ignore"):
+        ok, got = rec.guard("c16.call:find_sample_size:pilot", asn.find_sample_size, data=np.array(x, dtype=float), prefix=prefix, reps=None)
+        if not ok:
+            rec.case(case, nontrivial=False)
+            return
+        pop = (x * (N // len(x) + 1))[:N]
+        ok, res = rec.guard("c16.call:test", asn.test.test, np.array(pop, dtype=float))
+        if not ok:
+            return
+    want = first_crossing(np.asarray(res[1], dtype=float), con.risk_limit, N)
+    rec.case(dict(case, N=N, x=x, prefix=prefix, risk=con.risk_limit, test=tcfg), nontrivial=(1 < want < N))
+    rec.count("tile_assertion_checked")
+    if sum(x) > N / 2:
+        rec.count("tile_assertion_checked:pilot_total_alone_exceeds_N_t")
+    observe(rec, want, N)
+    if got != want:
+        rec.violation("c16.tile", "assertion_level:estimate_is_not_first_crossing_on_the_tiled_pilot",
+                      {"estimate": got, "first_crossing_on_tiled_population": want, "N": N, "risk_limit": con.risk_limit,
+                       "pilot": x, "prefix_flag": prefix, "test": tcfg})
 
 
 def observe(rec, want, N):
